@@ -10,7 +10,8 @@
 (*                no, hwmon     -> "AnaWait" -(mutex)-> "Ana" -> ("Sweep" ->)     *)
 (*                                 "Mapped" -> "Meas" (RPM curve) -> "Map"        *)
 (*                no, file/cmd  -> save default data -> "Map"                     *)
-(*          "Map" -(mutex)-> "MapRun": config map | stored map | sweep -> "Delay" *)
+(*          "Map" -(mutex)-> "MapRun": config map | stored map | sweep -> "Attach" *)
+(*          -> "Delay"                                                            *)
 (*          "Delay" (1 s) -> "Reg" (ticking) -> "Rest1" -> "Rest2" -> "Rest3"     *)
 (*          -> "Done" (loop ended; Run returns when the context is cancelled)     *)
 (* Global: the context (cancelled by the first signal), the initialisation mutex, *)
@@ -63,7 +64,7 @@ dvars == <<cf, ph, pwm, mode, orig, reg, mtx, ctx, proc, sigs, db, cnt, ana, fau
 Manual == 1
 Full == 255
 
-Phases == {"Off", "Wait", "Load", "AnaWait", "Ana", "Sweep", "Mapped", "Meas", "Map", "MapRun", "Delay",
+Phases == {"Off", "Wait", "Load", "AnaWait", "Ana", "Sweep", "Mapped", "Meas", "Map", "MapRun", "Attach", "Delay",
            "Reg", "Rest1", "Rest2", "Rest3", "Done", "Failed"}
 
 DInit(c) ==
@@ -147,12 +148,12 @@ AnaMap(f) ==
             /\ UNCHANGED <<ana, cnt, mode>>
   /\ UNCHANGED <<pwm, orig, reg, mtx, ctx, proc, sigs, faults, starts, discarded, had>>
 
-SweepEnd(f) ==
+SweepEnd(f, p) ==
   /\ Running /\ ph[f] = "Sweep"
   /\ ph' = [ph EXCEPT ![f] = "Mapped"]
   /\ ana' = [ana EXCEPT ![f] = FALSE]
   /\ db' = [db EXCEPT ![f].map = TRUE]
-  /\ \E p \in OrigPwms : pwm' = [pwm EXCEPT ![f] = p]     \* left at map[startPwm]
+  /\ pwm' = [pwm EXCEPT ![f] = p]     \* left at map[startPwm]
   /\ UNCHANGED <<mode, orig, reg, mtx, ctx, proc, sigs, cnt, faults, starts, discarded, had>>
 
 \* ... the RPM curve measurement (hwmon fans always have an RPM input)
@@ -165,14 +166,14 @@ MeasBegin(f) ==
   /\ UNCHANGED <<pwm, orig, reg, mtx, ctx, proc, sigs, db, faults, starts, discarded, had>>
 
 \* measurement finished: data attached and saved, mutex released
-MeasEnd(f) ==
+MeasEnd(f, p) ==
   /\ Running /\ ph[f] = "Meas"
   /\ ana' = [ana EXCEPT ![f] = FALSE]
   /\ db' = [db EXCEPT ![f].data = TRUE]
   /\ discarded' = [discarded EXCEPT ![f] = FALSE]
   /\ mtx' = IF mtx = f THEN "none" ELSE mtx
   /\ ph' = [ph EXCEPT ![f] = "Map"]
-  /\ \E p \in OrigPwms : pwm' = [pwm EXCEPT ![f] = p]
+  /\ pwm' = [pwm EXCEPT ![f] = p]
   /\ UNCHANGED <<mode, orig, reg, ctx, proc, sigs, cnt, faults, starts, had>>
 
 \* Run 174: computePwmMap under the mutex (file/cmd fans sweep here on their first start)
@@ -188,14 +189,21 @@ MapLock(f) ==
        ELSE UNCHANGED <<ana, cnt, mode>>
   /\ UNCHANGED <<pwm, orig, reg, ctx, proc, sigs, db, faults, starts, discarded, had>>
 
-MapDone(f) ==
+\* computePwmMap returns: map stored, mutex released (no hook: a silent step for trace validation)
+MapDone(f, p) ==
   /\ Running /\ ph[f] = "MapRun"
   /\ ana' = [ana EXCEPT ![f] = FALSE]
   /\ db' = [db EXCEPT ![f].map = IF cf.cfgMap[f] THEN @ ELSE TRUE]
   /\ mtx' = IF mtx = f THEN "none" ELSE mtx
-  /\ ph' = [ph EXCEPT ![f] = "Delay"]
-  /\ IF ana[f] THEN \E p \in OrigPwms : pwm' = [pwm EXCEPT ![f] = p] ELSE pwm' = pwm
+  /\ ph' = [ph EXCEPT ![f] = "Attach"]
+  /\ pwm' = IF ana[f] THEN [pwm EXCEPT ![f] = p] ELSE pwm
   /\ UNCHANGED <<mode, orig, reg, ctx, proc, sigs, cnt, faults, starts, discarded, had>>
+
+\* Run 179-187: distinct PWM values computed, settings logged, the loop group is set up
+Attached(f) ==
+  /\ Running /\ ph[f] = "Attach"
+  /\ ph' = [ph EXCEPT ![f] = "Delay"]
+  /\ UNCHANGED <<pwm, mode, orig, reg, mtx, ctx, proc, sigs, db, cnt, ana, faults, starts, discarded, had>>
 
 \* Run 215: one second delay, then the ticker; the context is checked at every tick
 LoopStart(f) ==
@@ -203,17 +211,19 @@ LoopStart(f) ==
   /\ ph' = [ph EXCEPT ![f] = "Reg"]
   /\ UNCHANGED <<pwm, mode, orig, reg, mtx, ctx, proc, sigs, db, cnt, ana, faults, starts, discarded, had>>
 
-\* one control cycle (Controller.tla has the detail): manual mode, some PWM value
-Cycle(f) ==
-  /\ Running /\ ph[f] = "Reg" /\ ctx = "live"
+\* one control cycle (Controller.tla has the detail): manual mode, some PWM value.
+\* (No guard on the context: the loop's select takes a pending tick or the cancellation at random,
+\* so cycles may still happen after the context has been cancelled.)
+Cycle(f, p) ==
+  /\ Running /\ ph[f] = "Reg"
   /\ reg' = [reg EXCEPT ![f] = TRUE]
   /\ mode' = [mode EXCEPT ![f] = IF cf.hasMode[f] THEN Manual ELSE @]
-  /\ \E p \in OrigPwms : pwm' = [pwm EXCEPT ![f] = p]
+  /\ pwm' = [pwm EXCEPT ![f] = p]
   /\ UNCHANGED <<ph, orig, mtx, ctx, proc, sigs, db, cnt, ana, faults, starts, discarded, had>>
 
 \* a cycle whose write fails: logged, regulation goes on
 CycleWriteFault(f) ==
-  /\ Running /\ ph[f] = "Reg" /\ ctx = "live" /\ faults < MaxFaults
+  /\ Running /\ ph[f] = "Reg" /\ faults < MaxFaults
   /\ faults' = faults + 1
   /\ reg' = [reg EXCEPT ![f] = TRUE]
   /\ UNCHANGED <<ph, pwm, mode, orig, mtx, ctx, proc, sigs, db, cnt, ana, starts, discarded, had>>
@@ -221,7 +231,7 @@ CycleWriteFault(f) ==
 \* fatal control error (stalled at max PWM, first PWM read fails, curve cannot be evaluated):
 \* reported, the fan is restored, the loop ends
 ControlError(f) ==
-  /\ Running /\ ph[f] = "Reg" /\ ctx = "live" /\ faults < MaxFaults
+  /\ Running /\ ph[f] = "Reg" /\ faults < MaxFaults
   /\ faults' = faults + 1
   /\ reg' = [reg EXCEPT ![f] = TRUE]
   /\ ph' = [ph EXCEPT ![f] = "Rest1"]
@@ -288,9 +298,10 @@ CliInit(f) ==
   /\ UNCHANGED <<ph, pwm, mode, orig, reg, mtx, ctx, proc, sigs, cnt, ana, faults, starts, had>>
 
 FanStep(f) ==
-  \/ Capture(f) \/ WaitDone(f) \/ Load(f) \/ AnaLock(f) \/ AnaMap(f) \/ SweepEnd(f)
-  \/ MeasBegin(f) \/ MeasEnd(f) \/ MapLock(f) \/ MapDone(f) \/ LoopStart(f)
-  \/ Cycle(f) \/ CycleWriteFault(f) \/ ControlError(f) \/ Cancelled(f)
+  \/ Capture(f) \/ WaitDone(f) \/ Load(f) \/ AnaLock(f) \/ AnaMap(f)
+  \/ MeasBegin(f) \/ MapLock(f) \/ Attached(f) \/ LoopStart(f)
+  \/ (\E p \in OrigPwms : SweepEnd(f, p) \/ MeasEnd(f, p) \/ MapDone(f, p) \/ Cycle(f, p))
+  \/ CycleWriteFault(f) \/ ControlError(f) \/ Cancelled(f)
   \/ \E o \in Outcomes : Restore1(f, o) \/ Restore2(f, o)
   \/ \E o \in Outcomes3 : Restore3(f, o)
 
